@@ -20,7 +20,7 @@ from ..core import Check, jdigest, result_template
 from ..oracles import exacttime as xt
 from ..oracles import geom
 from ..run import cleanup, history_digest, read_db
-from .common import drive, generic_shrinks, note_abort, time_info, variant
+from .common import drive, generic_shrinks, note_abort, over, time_info, variant
 
 POS_TOL_KM = 1e-3
 VEL_TOL_KMS = 1e-7
@@ -103,16 +103,16 @@ class C11(Check):
                     dpos = float(np.linalg.norm(ecef[:3] - ref[sid]))
                     dvel = float(np.linalg.norm(ecef[3:]))
                     max_pos, max_vel = max(max_pos, dpos), max(max_vel, dvel)
-                    if dpos > POS_TOL_KM:
+                    if over(dpos, POS_TOL_KM):
                         viol.append({"clause": "site-moved", "key": f"sec={S.second}",
                                      "detail": f"site {sid} ({sites[sid]['latitude']},{sites[sid]['longitude']}) is {dpos * 1000:.2f} m from its configured position at step {k} ({exact.isoformat()}), start {S.isoformat()} step {step}s"})
-                    if dvel > VEL_TOL_KMS:
+                    if over(dvel, VEL_TOL_KMS):
                         viol.append({"clause": "site-velocity", "key": f"sec={S.second}",
                                      "detail": f"site {sid}: Earth-fixed velocity {dvel:.3e} km/s at step {k} ({exact.isoformat()})"})
                     lla = sn["sensor_lla"][sid]
                     dl = float(np.linalg.norm(geom.lla_to_ecef(lla[0], lla[1], lla[2]) - ref[sid]))
                     max_lla = max(max_lla, dl)
-                    if dl > POS_TOL_KM:
+                    if over(dl, POS_TOL_KM):
                         viol.append({"clause": "site-lla", "key": f"sec={S.second}", "detail": f"site {sid}: reported lat/lon/alt is {dl * 1000:.2f} m from configured at step {k}"})
             # stored truth rows of the ground agents
             rows = read_db(ctx.db_path, "select e.timestampISO, t.agent_id, t.pos_x_km, t.pos_y_km, t.pos_z_km, t.vel_x_km_p_sec, t.vel_y_km_p_sec, t.vel_z_km_p_sec "
@@ -124,7 +124,7 @@ class C11(Check):
                 nrows += 1
                 ecef = eci2ecef(np.array(st, dtype=float), dt.datetime.fromisoformat(iso))
                 dpos = float(np.linalg.norm(ecef[:3] - ref[aid]))
-                if dpos > POS_TOL_KM:
+                if over(dpos, POS_TOL_KM):
                     viol.append({"clause": "site-moved-db", "key": f"sec={S.second}", "detail": f"stored truth row of site {aid} at {iso} is {dpos * 1000:.2f} m from its configured position"})
             steps = max(sn["k"] for sn in snaps) if snaps else 0
             res["nontrivial"] = steps > 0
